@@ -63,7 +63,7 @@ import (
 )
 
 const (
-	sysCaseWatchdog = 150 * time.Second // real-time backstop per case; firing => inconclusive
+	sysCaseWatchdog = 60 * time.Second  // real-time backstop per case; firing => inconclusive
 	sysReplyStream  = 1000              // prf stream id offset of the reply direction
 	sysTrailerLen   = 8 + sha256.Size   // reply trailer: bytes received (8) + sha256 of them
 )
@@ -640,13 +640,20 @@ func (s *state) sysRun(c *sysCase, attempt int) (out sysOutcome) {
 		wg.Wait()
 		for k := range done {
 			mu.Lock()
-			failedOpen := out.Streams[k].OpenErr != ""
+			o := out.Streams[k]
+			// the opener's side already ended in an error: its handler may never have been started (or is
+			// about to fail as well) - give it a moment, not the whole watchdog
+			openerFailed := o.OpenErr != "" || !o.UpW.ok(o.Spec.Up) || !o.Down.EOF
 			mu.Unlock()
-			if failedOpen {
-				continue // its handler may never have been started
+			var limit <-chan time.Time // nil: wait for the handler as long as the case's watchdog allows
+			if openerFailed {
+				tm := time.NewTimer(3 * time.Second)
+				limit = tm.C
+				defer tm.Stop()
 			}
 			select {
 			case <-done[k]:
+			case <-limit:
 			case <-ctx.Done():
 			}
 		}
@@ -826,14 +833,14 @@ func (s *state) system() {
 			switch {
 			case len(safety) > 0:
 			case out.ConnectErr != "" || timeout2 || (timeout && len(failed2) > 0):
-				s.r.Inconclusive(c.ID, fmt.Sprintf("watchdog / connect failure (first attempt: %v, second: %v %s)", failed, failed2, out.ConnectErr))
+				s.r.Inconclusive(c.ID, fmt.Sprintf("watchdog / connect failure (first attempt: %.300s, second: %.300s %.300s)", fmt.Sprint(failed), fmt.Sprint(failed2), out.ConnectErr))
 				return
 			case len(failed2) > 0:
 				// statement: bytes written "reach the remote reader exactly once, in order and unmodified"
-				s.r.Violation("sys:delivery-failed-without-fault/"+c.Cfg, c.ID, fmt.Sprintf("both attempts on fresh hosts ended in an error although nothing was closed, reset or altered: %v", failed2), detail)
+				s.r.Violation("sys:delivery-failed-without-fault/"+c.Cfg, c.ID, fmt.Sprintf("both attempts on fresh hosts ended in an error although nothing was closed, reset or altered: %d problems, first: %.300s", len(failed2), failed2[0]), detail)
 				return
 			default:
-				s.r.Inconclusive(c.ID, fmt.Sprintf("transient error on the first attempt only: %v", failed))
+				s.r.Inconclusive(c.ID, fmt.Sprintf("transient error on the first attempt only: %.400s", fmt.Sprint(failed)))
 			}
 		}
 		for _, v := range safety {
